@@ -32,7 +32,7 @@ static void do_new(char **a, int n) {
         else if (!strcmp(a[i], "cauth")) c.cauth = atoi(v);
         else if (!strcmp(a[i], "ccb")) c.ccb = atoi(v);
         else if (!strcmp(a[i], "scb")) c.scb = atoi(v);
-        else if (!strcmp(a[i], "key")) c.key = !strcmp(v, "ec");
+        else if (!strcmp(a[i], "key")) c.key = !strcmp(v, "ec") ? 1 : (!strcmp(v, "rsa4096") ? 2 : 0);
         else if (!strcmp(a[i], "resume")) c.resume = atoi(v);
         else if (!strcmp(a[i], "ticket")) c.ticket = atoi(v);
         else if (!strcmp(a[i], "ems")) c.ems = atoi(v);
@@ -96,7 +96,7 @@ static void run_cmd(char **a, int n) {
     else if (!strcmp(a[0], "flight") && n >= 3) {
         /* deliver everything queued in a direction, cut into receive calls: all | bytes <k> | list a,b,c (cyclic) */
         int d = dirof(a[1]); queue_t *q = d ? &g_s2c : &g_c2s; peer_t *to = d ? &g_c : &g_s;
-        size_t total = q->len; unsigned char *tmp = malloc(total + 1); memcpy(tmp, q->b, total); q->len = 0; q->mh = q->mt = 0;
+        size_t total = q->len; unsigned char *tmp = malloc(total + 1); memcpy(tmp, q->b, total); q->len = 0; q->mh = q->mt = 1024;
         int sizes[64], ns = 0;
         if (!strcmp(a[2], "all")) { sizes[ns++] = (int) (total ? total : 1); }
         else if (!strcmp(a[2], "bytes") && n >= 4) { sizes[ns++] = atoi(a[3]) > 0 ? atoi(a[3]) : 1; }
@@ -141,6 +141,15 @@ static void run_cmd(char **a, int n) {
         }
         if (rl > 0) { q_push(q, rec, (size_t) rl); printf("forge:%d", rl); } else if (ssl) printf("forge:fail");
         free(body);
+    }
+    else if (!strcmp(a[0], "qinj") && n >= 4) {
+        /* qinj <c2s|s2c> <head|tail> <hex record> : put a raw record on the wire queue (e.g. the middlebox-compatibility CCS a peer may send) */
+        queue_t *q = dirof(a[1]) ? &g_s2c : &g_c2s; unsigned char *d; size_t l = unhex(a[3], &d);
+        if (!strcmp(a[2], "head")) {
+            if (q->len + l <= QCAP) { memmove(q->b + l, q->b, q->len); memcpy(q->b, d, l); q->len += l;
+                q_meta_push_head(q, d[0], d[0], 0); }
+        } else { q_push(q, d, l); q_meta_push(q, d[0], d[0], 0); }
+        printf("qinj:%zu", l); free(d);
     }
     else if (!strcmp(a[0], "seths") && n >= 3) { peer_t *p = side(a[1]); if (p->ssl) p->ssl->hsState = (uint8_t) atoi(a[2]); printf("seths:%d", atoi(a[2])); }
     else if (!strcmp(a[0], "tick") && n >= 2) { g_vtime += atol(a[1]); printf("tick:%ld", g_vtime); }
